@@ -215,6 +215,140 @@ theorem reapply_roots {s : List FHdr} :
           · rfl
     · exact ih _ _ h k hk
 
+/-! ### every header of a chunk is root-checked -/
+
+/-- consecutive headers link up: each header's `prev_hash` is the hash of the one before it -/
+def Linked (c : List FHdr) : Prop :=
+  ∀ pre a b post, c = pre ++ a :: b :: post → b.prevHash = a.hash
+
+theorem find_nodup : ∀ (l : List FHdr) (x : FHdr), (l.map (·.hash)).Nodup → x ∈ l →
+    l.find? (fun f => f.hash == x.hash) = some x := by
+  intro l
+  induction l with
+  | nil => intro x _ hx; cases hx
+  | cons a t ih =>
+    intro x hn hx
+    simp only [List.map_cons, List.nodup_cons] at hn
+    rcases List.mem_cons.mp hx with rfl | hx
+    · simp [List.find?]
+    · have hne : a.hash ≠ x.hash := by
+        intro he
+        exact hn.1 (by rw [he]; exact List.mem_map_of_mem hx)
+      rw [List.find?_cons_of_neg (by simpa using hne)]
+      exact ih x hn.2 hx
+
+/-- in the batch's view of the store every chunk header is found under its own hash -/
+theorem getHdr_chunk (chunk hdrs : List FHdr) (x : FHdr) (hn : (chunk.map (·.hash)).Nodup)
+    (hx : x ∈ chunk) : getHdr (chunk.reverse ++ hdrs) x.hash = some x := by
+  unfold getHdr
+  rw [List.find?_append, find_nodup chunk.reverse x (by rw [List.map_reverse, List.Nodup, List.pairwise_reverse]; exact List.Pairwise.imp (fun h => Ne.symm h) hn) (by simpa using hx)]
+  rfl
+
+/-- the walk back from the end of a linked run of headers (`cur :: r` is the run latest first) that
+are neither genesis nor on the current header chain collects every one of them -/
+theorem forkWalk_covers {s : List FHdr} {e : HExt} :
+    ∀ (r : List FHdr) (cur : FHdr) (fuel : Nat) (acc : List Nat) (f : FHdr) (l : List Nat),
+      Linked (cur :: r).reverse →
+      (∀ x ∈ cur :: r, getHdr s x.hash = some x ∧ x.h.height ≠ 0 ∧
+        e.onChain s x.hash x.h.height ≠ some true) →
+      forkWalk s e fuel cur acc = .ok (f, l) → ∀ x ∈ cur :: r, x.hash ∈ l := by
+  intro r
+  induction r with
+  | nil =>
+    intro cur fuel acc f l _ hall hw x hx
+    simp only [List.mem_singleton] at hx
+    subst hx
+    obtain ⟨_, h0, hon⟩ := hall x (by simp)
+    cases fuel with
+    | zero => simp [forkWalk] at hw
+    | succ n =>
+      simp only [forkWalk, if_neg h0] at hw
+      split at hw
+      · cases hw
+      · rename_i ht; exact absurd ht hon
+      · split at hw
+        · cases hw
+        · exact forkWalk_acc _ _ _ _ _ hw _ (by simp)
+  | cons b r' ih =>
+    intro cur fuel acc f l hl hall hw x hx
+    have hlink : cur.prevHash = b.hash :=
+      hl r'.reverse b cur [] (by simp)
+    have hl' : Linked (b :: r').reverse := by
+      intro pre a c post hc
+      exact hl pre a c (post ++ [cur]) (by
+        have : (cur :: b :: r').reverse = (b :: r').reverse ++ [cur] := by simp
+        rw [this, hc]; simp)
+    obtain ⟨_, h0, hon⟩ := hall cur (by simp)
+    obtain ⟨hb, _, _⟩ := hall b (by simp)
+    cases fuel with
+    | zero => simp [forkWalk] at hw
+    | succ n =>
+      simp only [forkWalk, if_neg h0] at hw
+      split at hw
+      · cases hw
+      · rename_i ht; exact absurd ht hon
+      · rw [hlink, hb] at hw
+        simp only at hw
+        rcases List.mem_cons.mp hx with hx | hx
+        · subst hx
+          exact forkWalk_acc _ _ _ _ _ hw _ (by simp)
+        · exact ih b n _ f l hl' (fun y hy => hall y (List.mem_cons_of_mem _ hy)) hw x hx
+
+/-! ### computed root comparisons -/
+
+section roots
+variable {α H : Type} [DecidableEq H]
+
+/-- the chunk as the node-level pipeline sees it: every header with its computed `rootOk` -/
+def flagged (hf : Pmmr.HashFn α H) (rs : RStore α H) (chunk : List (RHdr α H)) : List FHdr :=
+  (flagChunk hf rs chunk).map (·.1.f)
+
+theorem flagOne_same (hf : Pmmr.HashFn α H) (rs : RStore α H) (r : RHdr α H) :
+    ∃ b, (flagOne hf rs r).1.f = { r.f with rootOk := b } ∧ (flagOne hf rs r).1.prevRoot = r.prevRoot := by
+  unfold flagOne
+  split <;> exact ⟨_, rfl, rfl⟩
+
+/-- computing the flags changes nothing else about the headers -/
+theorem flagged_same (hf : Pmmr.HashFn α H) :
+    ∀ (chunk : List (RHdr α H)) (rs : RStore α H),
+      (flagged hf rs chunk).map (fun f => { f with rootOk := false }) =
+        chunk.map (fun r => { r.f with rootOk := false }) := by
+  intro chunk
+  induction chunk with
+  | nil => intro rs; rfl
+  | cons r t ih =>
+    intro rs
+    obtain ⟨b, hb, _⟩ := flagOne_same hf rs r
+    have := ih (flagOne hf rs r :: rs)
+    simp only [flagged, flagChunk, List.map_cons, hb] at this ⊢
+    rw [this]
+
+/-- a header's flag is set iff its `prev_root` is the root of the MMR recorded after its parent -/
+theorem flagOne_rootOk (hf : Pmmr.HashFn α H) (rs : RStore α H) (r : RHdr α H)
+    (h : (flagOne hf rs r).1.f.rootOk = true) :
+    ∃ p m, rLookup rs r.f.prevHash = some (p, m) ∧ Pmmr.root hf m = .ok r.prevRoot := by
+  unfold flagOne at h
+  split at h
+  · cases h
+  · rename_i p m hl
+    exact ⟨p, m, hl, by simpa [rootMatches] using h⟩
+
+/-- the element of the flagged chunk at each position: the header against the store extended by
+the flagged earlier headers of the chunk -/
+theorem flagChunk_at (hf : Pmmr.HashFn α H) :
+    ∀ (pre : List (RHdr α H)) (rs : RStore α H) (x : RHdr α H) (post : List (RHdr α H)),
+      flagOne hf ((flagChunk hf rs pre).reverse ++ rs) x ∈ flagChunk hf rs (pre ++ x :: post) := by
+  intro pre
+  induction pre with
+  | nil => intro rs x post; simp [flagChunk]
+  | cons a t ih =>
+    intro rs x post
+    simp only [List.cons_append, flagChunk, List.reverse_cons, List.append_assoc, List.mem_cons]
+    right
+    exact ih _ x post
+
+end roots
+
 /-! ### the parameter store -/
 
 theorem resolve_setLocal_ne (s : PStore) (p q : Param) (v : Nat) (h : p ≠ q) :
